@@ -218,7 +218,9 @@ mod repr {
 
             // shortcut
             let bits = self.bit_len();
-            if bits <= n {
+            if bits == 0 {
+                return Repr::zero();
+            } else if bits <= n {
                 // the result must be 1
                 return Repr::one();
             }
